@@ -17,6 +17,10 @@ ENCODED = ["dateparser.date.DateDataParser.get_date_data", "dateparser.date.get_
            "apply_timezone_from_settings/get_timezone_from_tz_string", "dateparser.timezone_parser.StaticTzInfo/"
            "pop_tz_offset_from_string", "pytz fixed-offset zone objects (real objects, offsets read through utcoffset)"]
 ASSUMPTIONS = [
+    "zones WITH transitions (tz-database names): pytz's own DstTzInfo.localize/normalize/fromutc/utcoffset code is "
+    "re-imported through the loader and executed symbolically (bisect over the transition table forks per interval); "
+    "6 zones, local date-times in a window (quick 2019-2022, thorough 1971-2037) that are neither in a gap nor ambiguous; "
+    "the oracle is a transition table derived from the stdlib zoneinfo (system tzdata), independent of pytz",
     "bounded claim: ordered pairs drawn from a pool of FIXED-OFFSET zone spellings (pytz UTC, table offsets and static "
     "abbreviations that are not tz-database names, 'local' = the stubbed process zone UTC); zones with DST transitions "
     "- in this pytz that includes names such as 'EST' - are outside (pytz searches transition tables in C): DESIGN.md",
@@ -148,6 +152,114 @@ def h_relative(A, B, aware, named=None):
     return fn
 
 
+# ------------------------------------------------------------------------------------------------ zones with transitions
+DST_ZONES = ["America/New_York", "Europe/Paris", "Australia/Lord_Howe", "America/St_Johns", "Asia/Kolkata", "Africa/Casablanca"]
+
+
+def _is_dst_name(z):
+    return z is not None and "/" in z
+
+
+def _to_utc(zone, o, r, y0, y1):
+    """wall clock (o, r) in `zone` -> (assumption, utc pair, offset term)"""
+    from . import zones
+    if _is_dst_name(zone):
+        ok, uo, ur, off = zones.z_local_to_utc(zones.table(zone, y0 - 1, y1 + 1), o, r)
+        return ok, uo, ur, off
+    off = off_s(zone)
+    uo, ur = zones._shift(o, r, -off)
+    return z3.BoolVal(True), uo, ur, z3.IntVal(off)
+
+
+def _from_utc(zone, uo, ur, y0, y1):
+    from . import zones
+    if _is_dst_name(zone):
+        off = zones.z_offset_at_utc(zones.table(zone, y0 - 1, y1 + 1), uo, ur)
+    else:
+        off = z3.IntVal(off_s(zone))
+    o, r = zones._shift(uo, ur, off)
+    return o, r, off
+
+
+def _tz_seconds(tz):
+    off = getattr(tz, "_utcoffset", None)
+    if off is None:
+        off = tz.utcoffset(None)
+    return off.days * 86400 + off.seconds
+
+
+def h_dst(parser, A, B, aware, y0, y1):
+    """the four parsers with tz-database zones that have transitions: pytz's own localize/normalize/fromutc code is
+    executed symbolically; the oracle is a transition table derived from zoneinfo"""
+    def fn():
+        st = _settings(A, B, aware)
+        if parser == "timestamp":
+            lo = int((_dt.datetime(y0, 1, 2) - _dt.datetime(1970, 1, 1)).total_seconds())
+            hi = int((_dt.datetime(y1, 12, 30) - _dt.datetime(1970, 1, 1)).total_seconds())
+            n = C.field("n", max(lo, 10 ** 9), min(hi, 10 ** 10 - 1))
+            s = tmpl([("n", 10)], {"n": n})
+            wit = {"n": n}
+            dd = C.api(s, languages=["en"], settings=st)
+            uo, ur = dates.EPOCH_ORD + _zi(n) / 86400, (_zi(n) % 86400) * 1000000
+            src_off = None
+            if _is_dst_name(A):
+                # the property quantifies over local times that are neither in a gap nor ambiguous: the instant's wall
+                # clock in TIMEZONE must be such a time (the library goes through that wall clock)
+                lo_, lr_, _ = _from_utc(A, uo, ur, y0, y1)
+                pre, _, _, _ = _to_utc(A, lo_, lr_, y0, y1)
+                core.assume(mkbool(pre))
+        else:
+            v = C.date_fields(ymin=y0, ymax=y1)
+            v.update(C.time_fields("", "HMS" if parser != "absolute" else "HM"))
+            wit = dict(v)
+            o = dates.z_ord(_zi(v["Y"]), _zi(v["m"]), _zi(v["d"]))
+            r = dates.z_tod(_zi(v["H"]), _zi(v["M"]), _zi(v.get("S", 0)), 0)
+            pre, uo, ur, src_off = _to_utc(A, o, r, y0, y1)
+            core.assume(mkbool(pre))      # neither in a DST gap nor ambiguous, as the property states
+            if parser == "format":
+                s = tmpl([("Y", 4), "-", ("m", 2), "-", ("d", 2), " ", ("H", 2), ":", ("M", 2), ":", ("S", 2)], v)
+                dd = C.api(s, languages=["en"], settings=st, date_formats=["%Y-%m-%d %H:%M:%S"])
+            elif parser == "absolute":
+                s = tmpl([("Y", 4), "-", ("m", 2), "-", ("d", 2), " ", ("H", 2), ":", ("M", 2)], v)
+                dd = C.api(s, languages=["en"], settings=st)
+            else:
+                nn = C.field("k", 0, 99)
+                wit["k"] = nn
+                b = dates.SDateTime(v["Y"], v["m"], v["d"], v["H"], v["M"], v["S"], 0, _trusted=True)
+                st["RELATIVE_BASE"] = b
+                dd = C.api(tmpl([("k", 2), " hours ago"], {"k": nn}), languages=["en"], settings=st)
+                # instant = instant(reference) - k hours (wall-clock arithmetic on the reference's own offset)
+                from . import zones
+                uo, ur = _shift_hours(uo, ur, -_zi(nn))
+                o, r = _shift_hours(o, r, -_zi(nn))
+        do = dd.date_obj
+        if do is None:
+            return C.outcome(False, wit, "none")
+        if B is not None:
+            eo, er, eoff = _from_utc(B, uo, ur, y0, y1)
+        elif parser == "timestamp":
+            eo, er, eoff = _from_utc(A, uo, ur, y0, y1)
+        else:
+            eo, er, eoff = o, r, src_off
+        conds = [do._ord() == eo, do._us_of_day() == er]
+        want_aware = aware is True
+        if want_aware:
+            if do.tzinfo is None:
+                return C.outcome(False, wit, "naive")
+            if not (parser == "relative" and B is None):
+                # (relative without TO_TIMEZONE keeps the reference's own offset instance: only the wall clock is specified)
+                conds.append(eoff == _tz_seconds(do.tzinfo))
+        elif do.tzinfo is not None:
+            return C.outcome(False, wit, "aware")
+        return C.outcome(z3.And(*conds), wit, "dst")
+    return fn
+
+
+def _shift_hours(o, r, hours):
+    t = r + hours * 3600 * 1000000
+    return o + t / dates.K_DAY, t % dates.K_DAY
+
+
 def tasks(tier, seed):
     out = []
     quick = tier == "quick"
@@ -172,9 +284,28 @@ def tasks(tier, seed):
         for aw in (AWARE if not quick else [AWARE[(j + seed + 1) % 3]]):
             add("absolute-named:%s:%s>%s:%s" % (z, A, B, aw), "h_absolute", {"A": A, "B": B, "aware": aw, "named": z})
     for j, (A, B) in enumerate(npairs):
+        if A == "local":
+            continue   # naive reference + zone in the phrase + no TIMEZONE: the reference's zone is not determined by the property
         z = named[(j + seed + 1) % len(named)]
         for aw in AWARE:
             add("relative-named:%s:%s>%s:%s" % (z, A, B, aw), "h_relative", {"A": A, "B": B, "aware": aw, "named": z})
+    # tz-database zones with transitions (pytz's own code runs symbolically); window of local date-times
+    y0, y1 = (2021, 2021) if quick else (1971, 2037)
+    fixed = ["UTC", "+0530", None]
+    if quick:
+        A = DST_ZONES[seed % len(DST_ZONES)]
+        A2 = DST_ZONES[(seed + 1) % len(DST_ZONES)]
+        for parser, a_, b_, aw in (("timestamp", A, "UTC", None), ("format", A, fixed[seed % 3], True), ("relative", A, "UTC", False),
+                                   ("timestamp", A2, A, True), ("format", A2, A, None), ("timestamp", "UTC", A2, True)):
+            add("dst:%s:%s>%s:%s" % (parser, a_, b_, aw), "h_dst", {"parser": parser, "A": a_, "B": b_, "aware": aw, "y0": y0, "y1": y1}, 150)
+    else:
+        for j, A in enumerate(DST_ZONES):
+            others = [z for z in DST_ZONES if z != A]
+            for B in fixed + others:
+                for parser in ("timestamp", "relative", "format") + (("absolute",) if j < 2 and B in (None, "UTC") else ()):
+                    aw = AWARE[(j + len(parser) + seed) % 3]
+                    add("dst:%s:%s>%s:%s" % (parser, A, B, aw), "h_dst", {"parser": parser, "A": A, "B": B, "aware": aw, "y0": y0, "y1": y1}, 400)
+            add("dst:timestamp:UTC>%s" % A, "h_dst", {"parser": "timestamp", "A": "UTC", "B": A, "aware": True, "y0": y0, "y1": y1}, 300)
     for j in range(1 if quick else 6):
         A, B = pairs[(seed + 5 * j) % len(pairs)]
         add("absolute-full:%s>%s" % (A, B), "h_absolute", {"A": A, "B": B, "aware": AWARE[j % 3], "full": True}, 400)
@@ -187,6 +318,20 @@ def build_spec(task, viol):
     fn = task["fn"]
     st = _settings(a["A"], a["B"], a["aware"])
     fmts = None
+    if fn == "h_dst":
+        p = a["parser"]
+        if p == "timestamp":
+            s = "%010d" % w["n"]
+        elif p == "format":
+            s = "%04d-%02d-%02d %02d:%02d:%02d" % (w["Y"], w["m"], w["d"], w["H"], w["M"], w["S"])
+            fmts = ["%Y-%m-%d %H:%M:%S"]
+        elif p == "absolute":
+            s = "%04d-%02d-%02d %02d:%02d" % (w["Y"], w["m"], w["d"], w["H"], w["M"])
+        else:
+            s = "%02d hours ago" % w["k"]
+            st["RELATIVE_BASE"] = [w["Y"], w["m"], w["d"], w["H"], w["M"], w["S"], 0]
+        return {"task": task["name"], "witness": w, "clock": None, "args": a, "dst": True,
+                "call": {"string": s, "languages": ["en"], "settings": st, "date_formats": fmts}}
     if fn == "h_absolute":
         if a.get("full"):
             s = "%04d-%02d-%02d %02d:%02d" % (w["Y"], w["m"], w["d"], w["H"], w["M"])
@@ -217,9 +362,55 @@ def build_spec(task, viol):
             "call": {"string": s, "languages": ["en"], "settings": st, "date_formats": fmts}}
 
 
+def _native_dst(spec):
+    from symx import native
+    from . import zones
+    a, w = spec["args"], spec["witness"]
+    res = native.call_api(spec["call"])
+    desc = "parse(%r, formats=%r, settings=%r)" % (spec["call"]["string"], spec["call"].get("date_formats"), spec["call"]["settings"])
+    if "exception" in res:
+        return {"violates": True, "detail": "%s raised %s" % (desc, res["exception"])}
+    y0, y1, A, B, p = a["y0"], a["y1"], a["A"], a["B"], a["parser"]
+
+    def to_utc(zone, wall):
+        if _is_dst_name(zone):
+            return zones.local_to_utc_native(zones.table(zone, y0 - 1, y1 + 1), wall)
+        return True, wall - _dt.timedelta(seconds=off_s(zone)), off_s(zone)
+
+    def from_utc(zone, u):
+        off = zones.offset_at_utc_native(zones.table(zone, y0 - 1, y1 + 1), u) if _is_dst_name(zone) else off_s(zone)
+        return u + _dt.timedelta(seconds=off), off
+    if p == "timestamp":
+        u = _dt.datetime(1970, 1, 1) + _dt.timedelta(seconds=w["n"])
+        wall, soff = None, None
+    else:
+        wall = _dt.datetime(w["Y"], w["m"], w["d"], w["H"], w["M"], w.get("S", 0))
+        ok, u, soff = to_utc(A, wall)
+        if not ok:
+            return {"violates": False, "unrealizable": True, "detail": "witness is a gap/ambiguous local time"}
+        if p == "relative":
+            u -= _dt.timedelta(hours=w["k"])
+            wall -= _dt.timedelta(hours=w["k"])
+    if B is not None:
+        exp, eoff = from_utc(B, u)
+    elif p == "timestamp":
+        exp, eoff = from_utc(A, u)
+    else:
+        exp, eoff = wall, soff
+    got = res["date_obj"]
+    if got is None:
+        return {"violates": True, "detail": "%s -> None; expected %s" % (desc, exp)}
+    bad = got.replace(tzinfo=None) != exp or (got.tzinfo is not None) != (a["aware"] is True)
+    if not bad and a["aware"] is True and not (p == "relative" and B is None):
+        bad = got.utcoffset() != _dt.timedelta(seconds=eoff)
+    return {"violates": bad, "detail": "%s -> %r; expected wall clock %s (offset %+d s)" % (desc, got, exp, eoff)}
+
+
 def native_check(spec):
     from symx import native
     a = spec["args"]
+    if spec.get("dst"):
+        return _native_dst(spec)
     res = native.call_api(spec["call"])
     desc = "parse(%r, formats=%r, settings=%r)" % (spec["call"]["string"], spec["call"].get("date_formats"), spec["call"]["settings"])
     if "exception" in res:
